@@ -403,8 +403,11 @@ def overrides(case):
             from src.food_system.meat_and_dairy import MeatAndDairy
 
             Food.conversions.set_nutrition_requirements(2100, 47, 51, False, False, c["POP"])
-            if MeatAndDairy(c).KG_PER_LARGE_ANIMAL != float(kg):
-                cx.bad("override_not_effective", "kg_meat_per_large_animal=%s does not reach the meat yield table" % kg, override="kg_meat_per_large_animal")
+            # every round builds its own meat/dairy object from the same constants: the override must reach each of them
+            for nth in (1, 2, 3):
+                if MeatAndDairy(c).KG_PER_LARGE_ANIMAL != float(kg):
+                    cx.bad("override_not_effective", "kg_meat_per_large_animal=%s does not reach the meat yield table built for round %d" % (kg, nth), override="kg_meat_per_large_animal", round=nth)
+                    break
         for sp in rnd.sample(SPECIES, 6):
             cx.n["overrides"] += 1
             c = run({sp + "_head": 12345})
